@@ -38,6 +38,10 @@ type siteRow struct {
 	Total       int            `json:"total"`
 	Hash        string         `json:"hash"`
 	ClosureHash string         `json:"closure_hash"`
+	Readers     []string       `json:"readers"`      // io.Reader implementations of the package: `T.Read` methods with signature ([]byte) (int, error)
+	ReaderSites int            `json:"reader_sites"` // fault-capable sites inside them
+	ReaderHash  string         `json:"reader_hash"`  // hash of those sites (and of the method list)
+	ReaderBytes []string       `json:"reader_bytes"` // the byte constants (2 hex digits) the Read methods compare with / mention
 }
 
 type sitesResult struct {
@@ -96,11 +100,36 @@ func changedSitePackages(rows []siteRow) (changed []siteRow, err error) {
 	return changed, nil
 }
 
+// changedReaderPackages: packages below format/ whose Read methods (io.Reader implementations a decoder reads through)
+// have another site list than the baseline's `<pkg>#readers` entry — also a package that has such methods for the first time
+func changedReaderPackages(rows []siteRow) (changed []siteRow, err error) {
+	b, err := os.ReadFile(baselinePath())
+	if err != nil {
+		return nil, err
+	}
+	var base map[string]string
+	if err := json.Unmarshal(b, &base); err != nil {
+		return nil, err
+	}
+	for _, r := range rows {
+		if len(r.Readers) == 0 || !strings.HasPrefix(r.Pkg, "format/") {
+			continue
+		}
+		if base[r.Pkg+"#readers"] != r.ReaderHash {
+			changed = append(changed, r)
+		}
+	}
+	return changed, nil
+}
+
 func writeSitesBaseline(rows []siteRow) error {
 	m := map[string]string{}
 	for _, r := range rows {
 		if len(r.Formats) > 0 {
 			m[r.Pkg] = r.ClosureHash
+		}
+		if len(r.Readers) > 0 && strings.HasPrefix(r.Pkg, "format/") {
+			m[r.Pkg+"#readers"] = r.ReaderHash
 		}
 	}
 	b, _ := json.MarshalIndent(m, "", " ")
